@@ -233,6 +233,78 @@ static void runTwo(const Opt &o, Ev &ev) {
     ev.exhaustive["all ordered pairs of 9 channel-list and of 7 numeric-list bodies as two parameters of one command, entries 0..4 read in four interleavings"] = true;
 }
 
+// the same context and the same buffer address used for one expression after another (what happens when successive
+// messages are parsed into the input buffer): entries of the later expression are read in an arbitrary order - descending,
+// one index directly - and must answer for the text that is in the buffer NOW
+static std::string checkSuccessive(const std::vector<std::string> &bodies, const std::vector<std::vector<int>> &orders, bool numeric, uint64_t *calls = nullptr) {
+    Lib L;
+    size_t maxLen = 0; for (auto &b : bodies) maxLen = std::max(maxLen, b.size() + 2);
+    XBuf tb(maxLen);
+    std::string hist;
+    for (size_t bi = 0; bi < bodies.size(); bi++) {
+        const std::string &body = bodies[bi];
+        std::string text = "(" + body + ")";
+        memset(tb.p, ' ', maxLen); memcpy(tb.p, text.data(), text.size());
+        L.ctx.param_list.lex_state.buffer = L.ctx.param_list.lex_state.pos = tb.p;
+        L.ctx.param_list.lex_state.len = (int) text.size();
+        L.ctx.input_count = 0;
+        scpi_parameter_t param;
+        if (!SCPI_Parameter(&L.ctx, &param, TRUE) || param.type != SCPI_TOKEN_PROGRAM_EXPRESSION) return "'" + vis(text) + "' was not delivered as an expression parameter";
+        hist += "(" + body + ") read at";
+        for (int i : orders[bi]) {
+            hist += fmt(" %d", i);
+            std::string w = " in the history " + hist;
+            L.errs.clear(); SCPI_ErrorClear(&L.ctx); L.errs.clear();
+            if (calls) (*calls)++;
+            if (numeric) {
+                NumEntry ne; RStat rs = refNumeric(body, i, ne);
+                scpi_bool_t rng = 2; scpi_parameter_t a, b;
+                scpi_expr_result_t r = SCPI_ExprNumericListEntry(&L.ctx, &param, i, &rng, &a, &b);
+                if ((r == SCPI_EXPR_OK) != (rs == ST_OK)) return fmt("numeric entry %d reports %d, the text in the buffer says %d (0=OK 1=ERROR 2=NO_MORE)", i, (int) r, (int) rs) + w;
+                if (r == SCPI_EXPR_OK && ((rng != 0) != ne.range || std::string(a.ptr, (size_t) a.len) != ne.from || (ne.range && std::string(b.ptr, (size_t) b.len) != ne.to))) return fmt("numeric entry %d differs from what is written", i) + w;
+            } else {
+                ChanEntry ce; RStat rs = refChannel(body, i, ce);
+                XBuf fb(16, 0x5a), tb2(16, 0x5a);
+                scpi_bool_t rng = 2; size_t dims = 777;
+                scpi_expr_result_t r = SCPI_ExprChannelListEntry(&L.ctx, &param, i, &rng, (int32_t *) fb.p, (int32_t *) tb2.p, 4, &dims);
+                if ((int) r != (int) rs) return fmt("channel entry %d reports %d, the text in the buffer says %d (0=OK 1=ERROR 2=NO_MORE)", i, (int) r, (int) rs) + w;
+                if (r == SCPI_EXPR_OK) {
+                    if ((rng != 0) != ce.range || dims != ce.from.size()) return fmt("channel entry %d: isRange / dimension count differ from what is written", i) + w;
+                    for (size_t d = 0; d < std::min(dims, (size_t) 4); d++) {
+                        if (isIntLit(ce.from[d]) && ((int32_t *) fb.p)[d] != atoi(ce.from[d].c_str())) return fmt("channel entry %d dimension %zu is %d, written '%s'", i, d, ((int32_t *) fb.p)[d], ce.from[d].c_str()) + w;
+                        if (ce.range && isIntLit(ce.to[d]) && ((int32_t *) tb2.p)[d] != atoi(ce.to[d].c_str())) return fmt("channel entry %d range end dimension %zu is %d, written '%s'", i, d, ((int32_t *) tb2.p)[d], ce.to[d].c_str()) + w;
+                    }
+                }
+            }
+        }
+        hist += "; ";
+    }
+    return "";
+}
+static std::vector<int> walkOf(int shape) {
+    switch (shape) { case 0: return {0, 1, 2, 3, 4}; case 1: return {4, 3, 2, 1, 0}; case 2: return {3}; case 3: return {2, 4, 1}; default: return {1, 1, 0, 3}; }
+}
+static std::string replaySucc(const Replay &r) { return checkSuccessive({hexDec(r.get("a")), hexDec(r.get("b"))}, {walkOf((int) r.num("wa")), walkOf((int) r.num("wb"))}, r.num("numeric") != 0); }
+static void runSucc(const Opt &o, Ev &ev) {
+    static const char *const chan[] = {"@1,2,3,4", "@10,20,30,40", "@4,5:8,9", "@20", "@1!2,3!4:5!6,7!8", "@100:200,3,4:5"};
+    static const char *const num[] = {"1,2,3,4", "10,20,30:35,40", "4", "5:8,9,1,2", "1.5,2e3:4,7"};
+    uint64_t idx = 0, calls = 0;
+    for (int numeric = 0; numeric < 2; numeric++) {
+        const char *const *pool = numeric ? num : chan; size_t n = numeric ? sizeof num / sizeof num[0] : sizeof chan / sizeof chan[0];
+        for (size_t a = 0; a < n; a++) for (size_t b = 0; b < n; b++) for (int wa = 0; wa < 5; wa++) for (int wb = 0; wb < 5; wb++) {
+            if ((idx++ % (uint64_t) o.workers) != (uint64_t) o.worker) continue;
+            std::string rep = fmt("a=%s\nb=%s\nwa=%d\nwb=%d\nnumeric=%d\n", hexEnc(pool[a]).c_str(), hexEnc(pool[b]).c_str(), wa, wb, numeric);
+            armCase("sub=succ\n" + rep);
+            std::string m = checkSuccessive({pool[a], pool[b]}, {walkOf(wa), walkOf(wb)}, numeric != 0, &calls);
+            ev.ntCount();
+            if (!m.empty()) { failEnum(o, ev, "succ", rep, m); if (ev.failures.size() >= 4) return; }
+        }
+    }
+    disarmCase();
+    ev.eval(calls); ev.label("successive-expression-entry-queries", calls);
+    ev.exhaustive["all ordered pairs of 6 channel-list and of 5 numeric-list bodies parsed one after the other at the same buffer address on one context, each read in five walks (ascending, descending, one index, mixed)"] = true;
+}
+
 static std::string g_curBody;
 static std::string lazyCur(const void *) { return "sub=body\nbody=" + hexEnc(g_curBody) + "\n"; }
 
@@ -291,6 +363,15 @@ static std::string body(Src &s, Ev &ev) {
         m = checkTwoLists(b, b2, order, !chan, &calls);
         ev.label("two-lists-interleaved");
     }
+    if (m.empty() && s.prob(1, 6)) {
+        // the same context decodes a second generated list at the same buffer address; both are read in generated orders
+        int n2 = 0, d2 = 0; bool r2 = false, m2 = false;
+        std::string b2 = genBody(s, chan, n2, d2, r2, m2);
+        std::vector<std::vector<int>> orders(2);
+        for (auto &o : orders) { int q = (int) s.range(1, 7); for (int i = 0; i < q; i++) o.push_back((int) s.range(0, 9)); }
+        m = checkSuccessive({b, b2}, orders, !chan, &calls);
+        ev.label("successive-lists-same-address");
+    }
     ev.eval(calls);
     ev.label(chan ? (mutated ? "mutated-channel-list" : "channel-list") : (mutated ? "mutated-numeric-list" : "numeric-list"));
     if (n >= 2 && (anyRange || dimsMax >= 2)) { ev.nt(hashStr(b)); if (ev.wantSample()) ev.sample("(" + b + ")"); }
@@ -329,6 +410,7 @@ int main(int argc, char **argv) {
     subs.push_back({"body", [](const Opt &, Ev &) {}, [](const Replay &r) { return checkBody(hexDec(r.get("body")), 9, {0, 1, 2, 3, 4, 5}); }});
     subs.push_back({"enum", runEnum, [](const Replay &r) { return checkBody(hexDec(r.get("body")), 9, {0, 1, 2, 3, 4, 5}); }});
     subs.push_back({"two", runTwo, replayTwo});
+    subs.push_back({"succ", runSucc, replaySucc});
     subs.push_back({"rand", [](const Opt &o, Ev &ev) { runRandom(o, ev, "rand", 400, o.quick() ? 30000 : 300000, body); },
                     [](const Replay &r) { auto v = r.choices(); Src s(v); Ev e; return body(s, e); }});
     return mainWith(argc, argv, "C19", subs);
